@@ -159,6 +159,8 @@ def lex(s):
                 return out
             if "\\" in s[i + 1:j]:
                 out.unspec.append("back-slash inside back-ticks")
+            if j == i + 1:
+                out.unspec.append("empty back-ticked name")
             if toks and toks[-1].end == i - 1 and toks[-1].kind in WORD_KINDS + ("call", "string"):
                 out.unspec.append("back-tick glued to a word")
             toks.append(Tok("qname", s[i + 1:j], i, j))
@@ -172,6 +174,8 @@ def lex(s):
                 return out
             if toks and toks[-1].end == i - 1 and toks[-1].kind in WORD_KINDS + ("call", "string"):
                 out.unspec.append("brace glued to a word")
+            if not s[i + 1:j].strip():
+                out.unspec.append("empty braces")
             toks.append(Tok("brace", s[i + 1:j], i, j))
             i = j + 1
             continue
